@@ -10,7 +10,8 @@ LEVEL = "model_checking"
 ASSUMPTIONS = ["file data dumped by `p` is not archive-derived *text*: members carry plain ASCII data so that all of stdout can be checked",
                "header records are taken as the library returns them; list output is additionally compared with ListOutput.tla",
                "TLC/SANY/CommunityModules trusted"]
-FIELDS = ["name", "path", "target", "method_first", "method_later", "user", "group", "longpath", "longname", "linkpath", "longlinkpath"]
+FIELDS = ["name", "path", "target", "method_first", "method_later", "user", "group", "longpath", "longname", "linkpath", "longlinkpath",
+          "linklongname", "linkemptytarget", "dirthenlink", "filethendir"]
 # the hostile byte at the far end of texts longer than the buffers a formatting routine might use (128 .. 4096 bytes)
 TAIL_FIELDS = ["tailpath1030", "tailpath4100", "tailname1030", "tailtarget1030", "tailpath260", "tailname520"]
 MODES = ["l", "lv", "v", "vv", "t", "x", "xn", "xq0", "xq1", "xq2", "p", "xx_n", "xx_s", "xx_a", "xx_y", "xx_z", "xxn", "xxi", "x_notdir"]
@@ -45,6 +46,23 @@ def hostile_archive(field, byte, later):
     if field in ("linkpath", "longlinkpath"):
         exts = [arc.x_name(b"lnk|tgt"), (arc.X_PATH, b"d" + b + b"e" * (1 if field == "linkpath" else 300) + b"\xff"), arc.x_perm(0o120777)]
         kw.update(method=b"-lhd-", payload=b"")
+    # symbolic links that cannot be created (name too long; empty target; a directory of that name extracted just before), and a
+    # directory that cannot be created because a file of that name came first: what is said about the failure names the path
+    if field == "linklongname":
+        exts = [arc.x_name(b"l" + b + b"k" * 300 + b"|tgt"), arc.x_perm(0o120777)]
+        kw.update(method=b"-lhd-", payload=b"")
+    if field == "linkemptytarget":
+        exts = [arc.x_name(b"l" + b + b"k|"), arc.x_perm(0o120777)]
+        kw.update(method=b"-lhd-", payload=b"")
+    if field in ("dirthenlink", "filethendir"):
+        nmh = b"d" + b + b"e"
+        if field == "dirthenlink":
+            first = arc.Member(level=2, method=b"-lhd-", name=b"", payload=b"", os=ord("U"), time=1000000000, exts=[(arc.X_PATH, nmh + b"\xff"), arc.x_perm(0o40755)])
+            second = arc.Member(level=2, method=b"-lhd-", name=b"", payload=b"", os=ord("U"), time=1000000000, exts=[arc.x_name(nmh + b"|target"), arc.x_perm(0o120777)])
+        else:
+            first = arc.Member(level=2, method=b"-lh0-", name=b"", payload=b"text\n", os=ord("U"), time=1000000000, exts=[arc.x_name(nmh), arc.x_perm(0o100644)])
+            second = arc.Member(level=2, method=b"-lhd-", name=b"", payload=b"", os=ord("U"), time=1000000000, exts=[(arc.X_PATH, nmh + b"\xff"), arc.x_perm(0o40755)])
+        return first.bytes() + second.bytes() + clean.bytes() + b"\0"
     if field.startswith("tail"):
         n = int(field.lstrip("tailpathnmrge"))
         if field.startswith("tailpath"):
